@@ -48,7 +48,16 @@ pub enum Op {
     Drain,
     /// C04: a writer task runs `sessions` while `readers` reader tasks loop
     /// tracked() / queries / drop
-    ReadersWriter { sessions: Vec<(Vec<SessStep>, bool)>, readers: Vec<Vec<Vec<u32>>> },
+    /// `detach` != 0: executors of normal nodes read the first inputs through
+    /// a clone of their engine in a spawned helper task, and the readers
+    /// abandon some of their requests (which ones and at which suspension
+    /// is derived from `detach`), leaving the helper behind as a reader
+    ReadersWriter {
+        sessions: Vec<(Vec<SessStep>, bool)>,
+        readers: Vec<Vec<Vec<u32>>>,
+        #[serde(default)]
+        detach: u64,
+    },
     /// a faulted operation: `op` runs with `fault` injected
     Faulted { op: Box<Op>, fault: Fault },
 }
